@@ -348,7 +348,9 @@ func genTime() *rapid.Generator[time.Time] {
 	return rapid.Custom(func(t *rapid.T) time.Time {
 		year := rapid.OneOf(rapid.SampledFrom([]int{2, 1677, 1678, 1969, 1970, 2023, 2262, 2263, 9998}), rapid.IntRange(2, 9998)).Draw(t, "year")
 		nsec := rapid.SampledFrom([]int{0, 1, 999999999, 500000000, 123456789, 120000000}).Draw(t, "nsec")
-		offMin := rapid.SampledFrom([]int{0, 0, 60, -60, 330, 345, -720, 840, 1}).Draw(t, "zoneMinutes")
+		// every whole-minute offset a zone may have, among them the ones west of Greenwich by less than an hour (-00:30:
+		// the sign is not that of the hour part) and the half- and quarter-hour zones
+		offMin := rapid.OneOf(rapid.SampledFrom([]int{0, 0, 60, -60, 330, 345, -720, 840, 1, -1, -30, -59, 30, -210, -570, 765, -61}), rapid.IntRange(-14*60, 14*60)).Draw(t, "zoneMinutes")
 		loc := time.UTC
 		if offMin != 0 || rapid.Bool().Draw(t, "fixedZone") {
 			loc = time.FixedZone("", offMin*60)
